@@ -17,7 +17,8 @@ RULE = ("numdrive: every 'way of writing the number' (boundary set per configura
         "channels (periodic scan parked) with t on both sides of every deadline, both heaps and both maps compared after every operation; scans of "
         "larger real heaps; TOUCH near the cap; calls of the real util.UniqRands (queueScanLoop's channel selection: distinct, in range, all channels when "
         "there are no more than the selection count); one round (thorough: five) of end-to-end wall-clock checks against a daemon with the real 100 ms ticker "
-        "(REQ 150 ms, DPUB 200 ms, msg_timeout 1 s: client-side timestamps, never early exactly, late by at most 10 s). Every case is non-trivial by construction; distinct = distinct case terms.")
+        "(REQ 150 ms, DPUB 200 ms, msg_timeout 1 s: client-side timestamps, never early exactly, late by at most 10 s); five cases on a third nsqd with "
+        "max-req-timeout = MaxInt64 ns (known finding K9). Every case is non-trivial by construction; distinct = distinct case terms.")
 TRUSTED = [
     "modelled, not verified: time.Now / time.Time arithmetic (one integer clock; wall-clock steps and the monotonic/wall distinction of newTimeout.Sub are not modelled), "
     "sync.Mutex atomicity of each critical section (the channel machine is sequential: map insert + heap push is one step), Go slice reallocation (capacity tracked as a number), "
@@ -30,7 +31,7 @@ TRUSTED = [
 ASSUMPTIONS = [
     "each mutex-protected section of channel.go is atomic and the (map, heap) pair is updated as one step (C04 'partial'; the fine-grained interleavings belong to C02/C08)",
     "a channel is scanned at least once per scan interval: proved for the index selection when #channels <= QueueScanSelectionCount (C04_tick_selection), assumed for the ticker/worker pool; beyond that count, and for a channel younger than the refresh interval, 'soon after' is probabilistic",
-    "0 <= max-req-timeout < MaxInt64 ns and 0 <= max-rdy-count: for max-req-timeout == MaxInt64 exactly, DPUB/defer accept values above it (theorem C04_dpub_edge; reported)",
+    "0 <= max-req-timeout < MaxInt64 ns and 0 <= max-rdy-count: for max-req-timeout == MaxInt64 exactly, DPUB/defer accept values above it (theorem C04_dpub_edge; known finding K9, replayed every run)",
     "one message object is never pushed on a heap twice (the channel's map check; the model represents a slot by the record it points to)",
 ]
 LEVEL_TEXT = ("Machine-checked proof (Coq 8.16.1, no axioms) over exact executable models of nsqd/in_flight_pqueue.go, internal/pqueue/pqueue.go + Go's container/heap, "
@@ -46,7 +47,9 @@ LEVEL_TEXT = ("Machine-checked proof (Coq 8.16.1, no axioms) over exact executab
               "constants regenerated from nsqd/options.go and by differential correspondence on the real queues, real channels and a live nsqd on every run.")
 LEVEL_NOTE = ("Trusted: Coq kernel + vm_compute; hand-written models (compared with the real code after every operation, sampled); gotables constants; the verif hooks. "
               "Partial: wall-clock behaviour (which channels a tick scans, scheduling delay between deadline and scan) is not modelled -- scans are events with a given t; "
-              "mutex atomicity assumed; the edge max-req-timeout == MaxInt64 ns is excluded from the DPUB/defer range theorems (C04_dpub_edge shows why).")
+              "mutex atomicity assumed. Known finding K9 (known_findings.json, replayed on every run by five cases on a third nsqd configured with max-req-timeout = MaxInt64 ns, tag kf=K9): "
+              "at that setting DPUB and /pub?defer= accept delays above the maximum and deadlines with now+d >= 2^63 ns wrap (released at once); the DPUB/defer range theorems are therefore "
+              "stated for max-req-timeout < MaxInt64 ns (C04_dpub_edge proves the bound is needed) and the deadline model assumes no int64 overflow.")
 TECHNIQUE = "Coq proofs (induction over byte strings, heap-except-at-one-position invariants, permutation/multiset reasoning, machine invariants) + differential correspondence on the real queues, channels and a live daemon"
 DESIGN_REF = "DESIGN.md §5 C04 (+ Heap.v part of C02, §8b)"
 SEARCH_SCALE = 4
